@@ -207,7 +207,16 @@ def f3(run, project):
             collect(top, 0)
 
             def valid_on(p, v):
-                return any(p.truth(f"{v} in {a_}") is True for a_ in alph)
+                # (the one-byte text of an input byte, `bytes([v])`, is tested in place of the byte)
+                return any(p.truth(f"{v} in {a_}") is True or p.truth(f"bytes([{v}]) in {a_}") is True for a_ in alph)
+
+            def byte_name(x):
+                if isinstance(x, ast.Name):
+                    return x.id
+                if isinstance(x, ast.Call) and norm(x.func) == "bytes" and len(x.args) == 1 and isinstance(x.args[0], ast.List) \
+                        and len(x.args[0].elts) == 1 and isinstance(x.args[0].elts[0], ast.Name):
+                    return x.args[0].elts[0].id
+                return None
             # state discipline of loop-carried operands
             def state_ok(v):
                 inits = [paths.text(p.env[v]) for p, d in allp if d == 0 and p.env.get(v) is not None]
@@ -224,8 +233,8 @@ def f3(run, project):
                     t = paths.text(nv).replace("b''", "bytes()")
                     if t == "bytes()":
                         continue
-                    m = isinstance(nv, ast.BinOp) and isinstance(nv.op, ast.Add) and norm(nv.left) == v and isinstance(nv.right, ast.Name)
-                    if m and valid_on(p, nv.right.id):
+                    m = isinstance(nv, ast.BinOp) and isinstance(nv.op, ast.Add) and norm(nv.left) == v and byte_name(nv.right) is not None
+                    if m and valid_on(p, byte_name(nv.right)):
                         continue
                     return False
                 # the state starts empty (assigned before the loop)
@@ -405,16 +414,28 @@ def f6(run, project):
     for k, v in want.items():
         run.ob("F6", consts.get(k) == v, f"{k} = {v!r} (documented swtpm log layout)", f"{k} is {consts.get(k)!r}", module=mod,
                node=mod.tree, func="<module>", construct=f"{k} constant")
-    states = {k: v for k, v in consts.items() if k.startswith("STATE_")}
-    run.ob("F6", len(states) == 4 and len(set(states.values())) == 4, "four distinct scanner states", f"states: {states}", module=mod,
-           node=mod.tree, func="<module>", construct="STATE constants")
     fn = mod.function("parse_hex_string")
     loops = [s_ for s_ in fn.body if isinstance(s_, ast.While)]
     run.require(len(loops) == 1, "F6: scanner loop not found")
     lp = loops[0]
-    for a_ in [s_ for s_ in ast.walk(fn) if isinstance(s_, ast.Assign) and norm(s_.targets[0]) == "state"]:
-        run.ob("F6", norm(a_.value) in states, f"state = {norm(a_.value)} is a defined state", f"state is set to `{norm(a_.value)}`",
+    # the scanner's states: whatever distinct constants `state` is set to / compared with - module-level ints, members of an
+    # Enum ... (they are told apart below by their place in the automaton, not by their names)
+    sets_ = [s_ for s_ in ast.walk(fn) if isinstance(s_, ast.Assign) and norm(s_.targets[0]) == "state"]
+    states = {}
+    enum_members = {}
+    for c_ in [c_ for c_ in mod.tree.body if isinstance(c_, ast.ClassDef) and any(norm(b_).split(".")[-1] in ("Enum", "IntEnum") for b_ in c_.bases)]:
+        for m_ in c_.body:
+            if isinstance(m_, ast.Assign) and len(m_.targets) == 1 and isinstance(m_.targets[0], ast.Name):
+                enum_members[f"{c_.name}.{m_.targets[0].id}"] = f"{c_.name}.{m_.targets[0].id}"
+    for a_ in sets_:
+        t_ = norm(a_.value)
+        v_ = consts.get(t_) if t_ in consts else enum_members.get(t_)
+        run.ob("F6", v_ is not None, f"state = {t_} is a defined state", f"state is set to `{t_}`, which is not a scanner state constant",
                module=mod, node=a_, func=fn.name, construct=norm(a_))
+        if v_ is not None:
+            states[t_] = v_
+    run.ob("F6", len(states) == 4 and len(set(states.values())) == 4, "four distinct scanner states", f"states: {states}", module=mod,
+           node=mod.tree, func="<module>", construct="STATE constants")
     # ---- the transition table, extracted from the summaries of one loop iteration
     S = paths.Summariser(mod, fn)
     top = S.paths()
@@ -426,7 +447,31 @@ def f6(run, project):
     bvars = {norm(e.targets[0]) for b_ in body.values() for k, e, _ in b_.effects if k == "bind" and "next(" in norm(e.value)}
     run.require(len(bvars) == 1, f"F6: the scanner's input byte variable not found ({sorted(bvars)})")
     bv = bvars.pop()
-    M, ST, HI, LO = "STATE_WANT_CMD_MARKER", "STATE_WANT_CMD_START", "STATE_WANT_HIGH_NIBBLE", "STATE_WANT_LOW_NIBBLE"
+    # roles of the states by their place in the automaton: M = the initial state, ST = where M goes, HI = where ST goes,
+    # LO = where HI goes other than back to M
+    init = [a_ for a_ in sets_ if not any(a_ is x for x in ast.walk(lp))]
+    run.require(len(init) == 1, "F6: initial scanner state not found")
+
+    def goes(src):
+        out = []
+        for bp_ in body.values():
+            if bp_.truth(f"state == {src}") is True and bp_.env.get("state") is not None:
+                t_ = paths.text(bp_.env["state"])
+                if t_ != src and t_ not in out and t_ != "state":
+                    out.append(t_)
+        return out
+    M = norm(init[0].value)
+    g1 = goes(M)
+    ST = g1[0] if len(g1) == 1 else None
+    g2 = goes(ST) if ST else []
+    HI = g2[0] if len(g2) == 1 else None
+    g3 = [x for x in (goes(HI) if HI else []) if x != M]
+    LO = g3[0] if len(g3) == 1 else None
+    if None in (ST, HI, LO) or len({M, ST, HI, LO}) != 4:
+        run.ob("F6", False, "scanner states by role", f"the scanner's automaton is not marker -> marker line -> first digit <-> second digit: "
+               f"from the initial state {M} the successors are {g1}, then {g2}, then {g3}", module=mod, node=lp, func=fn.name,
+               construct="state dispatch")
+        return
     RAISE, RET = ("raise", "-", "-", "-", ()), ("return", "-", "-", "-", ())
     EOF = "EOF"
 
@@ -448,12 +493,13 @@ def f6(run, project):
     for bp in body.values():
         # canonical atoms: end of input is either the StopIteration handler or `b is None`
         q = paths.Path()
+        WRAP = f"bytes([{bv}])"   # `b = next(it, None)` then `b = bytes([b])`: the one-byte text of the input byte is the byte
         for a_, v, n_ in bp.cond:
             if a_.startswith("try@") and "StopIteration" in a_:
                 a_ = EOF
             elif a_ == f"{bv} is None":
                 a_ = EOF
-            q.cond.append((a_, v, n_))
+            q.cond.append((a_.replace(WRAP, bv), v, n_))
         if q.truth(EOF) is None:
             q.cond.append((EOF, False, None))
         cur = [st_ for st_ in spec if q.truth(f"state == {st_}") is True]
@@ -476,7 +522,7 @@ def f6(run, project):
             v = bp.env.get(name)
             if v is None:
                 return "-"
-            t = paths.text(v).replace("b''", "bytes()")
+            t = paths.text(v).replace("b''", "bytes()").replace(WRAP, bv)
             return "-" if t == name else t
         end = {"fall": "next", "continue": "next", "return": "return"}.get(bp.end)
         if bp.end == "raise":
@@ -484,7 +530,7 @@ def f6(run, project):
         st_out = envtext("state")
         if st_out == cur:
             st_out = "-"
-        ys = tuple(e for k, e in bp.effect_texts(("yield",)))
+        ys = tuple(e.replace(WRAP, bv) for k, e in bp.effect_texts(("yield",)))
         got = (end, st_out, envtext("value"), envtext("marker"), ys) if end == "next" else (end, "-", "-", "-", ys)
         rules, default = spec[cur]
         want = paths.decide(rules, default, q)
@@ -521,6 +567,23 @@ def f7(run, project):
         if isinstance(p, ast.If) and not any(isinstance(x, (ast.For, ast.While)) for x in _ancestors(r, fn)) and \
                 any(isinstance(x, (ast.For, ast.While)) for x in fn.body[:fn.body.index(_top(r, fn))]):
             ok = True
+    # third shape: the pairing loop pulls the two digits through a helper that answers "empty" at the end of the input; the
+    # second pull being empty (while a first digit is held) raises
+    if not ok:
+        bparam = fn.args.args[0].arg
+        for lp_ in [n_ for n_ in walk_no_nested(fn) if isinstance(n_, (ast.While, ast.For))]:
+            def pulls(node):
+                return isinstance(node, ast.Call) and any(isinstance(a_, ast.Name) and a_.id == bparam for a_ in node.args) \
+                    and call_name(node) not in ("iter", "len", "bytes", "list")
+            first = [n_ for n_ in ast.walk(lp_.test if isinstance(lp_, ast.While) else lp_.iter) if isinstance(n_, ast.NamedExpr) and pulls(n_.value)] + \
+                [s_ for s_ in lp_.body if isinstance(s_, ast.Assign) and pulls(s_.value)]
+            for i_, s_ in enumerate(lp_.body):
+                if isinstance(s_, ast.Assign) and pulls(s_.value) and isinstance(s_.targets[0], ast.Name) and first and first[0] is not s_:
+                    v2 = s_.targets[0].id
+                    for t_ in lp_.body[i_ + 1:i_ + 3]:
+                        if isinstance(t_, ast.If) and norm(t_.test) in (f"not {v2}", f"{v2} is None", f"{v2} == b''", f"len({v2}) == 0") and \
+                                any(isinstance(r, ast.Raise) and r.exc is not None and (call_name(r.exc) or "") == "ValueError" for r in t_.body):
+                            ok = True
     run.ob("F7", ok, "hex scanner: an unpaired trailing digit raises ValueError",
            "parse_hex_string has no ValueError exit for an input that ends inside a digit pair: text with an odd number of digits is "
            "decoded (the last digit silently dropped) instead of rejected", module=mod, node=fn, func=fn.name,
@@ -560,11 +623,12 @@ def f7(run, project):
         for lp_paths in t_.loops.values():
             for bp in lp_paths:
                 eof = any((a_.startswith("try@") and "StopIteration" in a_ and v_) or (a_.endswith(" is None") and v_) for a_, v_, _ in bp.cond)
-                if eof and bp.truth("state == STATE_WANT_LOW_NIBBLE") is True:
+                if eof and any(a_.startswith("state == ") and a_.endswith("LOW_NIBBLE") and v_ for a_, v_, _ in bp.cond):
                     ok = bp.end == "raise" and (call_name(bp.value) or "") == "ValueError"
         for bp in [t_]:
             eof = any((a_.startswith("try@") and "StopIteration" in a_ and v_) or (a_.endswith(" is None") and v_) for a_, v_, _ in bp.cond)
-            if eof and bp.truth("state == STATE_WANT_LOW_NIBBLE") is True and bp.end == "raise" and (call_name(bp.value) or "") == "ValueError":
+            if eof and any(a_.startswith("state == ") and a_.endswith("LOW_NIBBLE") and v_ for a_, v_, _ in bp.cond) and bp.end == "raise" \
+                    and (call_name(bp.value) or "") == "ValueError":
                 ok = True
     run.ob("F7", ok, "swtpm scanner: input ending inside a digit pair raises ValueError", "the low-nibble state no longer raises at end of input",
            module=sm, node=sf, func=sf.name, construct="swtpm unpaired digit exit")
